@@ -728,7 +728,7 @@ func (g *Gen) clientOp() {
 			return
 		}
 		g.proposals++
-		g.do(Action{K: APropose, N: id, Tags: []int{g.tag()}, I: g.payloadSize()})
+		g.do(Action{K: APropose, N: id, Tags: []int{g.tag()}, I: g.payloadSize(), J: g.reuseBuffer()})
 	case 1:
 		id := g.targetNode(0.6)
 		if id == 0 {
@@ -740,7 +740,7 @@ func (g *Gen) clientOp() {
 			tags = append(tags, g.tag())
 		}
 		g.proposals += k
-		g.do(Action{K: APropose, N: id, Tags: tags, I: g.payloadSize(), B: true})
+		g.do(Action{K: APropose, N: id, Tags: tags, I: g.payloadSize(), B: true, J: g.reuseBuffer()})
 	case 2:
 		g.confChange()
 	case 3:
@@ -798,6 +798,15 @@ func (g *Gen) clientOp() {
 }
 
 func (g *Gen) tag() int { g.nextTag++; return g.nextTag }
+
+// reuseBuffer decides whether the client overwrites its payload buffer once
+// the Propose call has returned (takes effect at leaders only, see doPropose).
+func (g *Gen) reuseBuffer() int {
+	if chance(g.rng, 0.3) {
+		return 1
+	}
+	return 0
+}
 
 // confChange proposes a membership change that is plausible against the latest
 // committed configuration (the proposal may still be stale, refused or
